@@ -1,5 +1,6 @@
 """C03 - core PEG operators follow pest's matching semantics (interpreter side; templates: C01)."""
 from . import groups as g
+from . import ops, unroll_struct
 
 PROPERTY = "C03"
 EXPLANATION = (
@@ -9,13 +10,17 @@ EXPLANATION = (
 )
 TRUSTED = g.COMMON_TRUSTED
 ASSUMPTIONS = g.COMMON_ASSUMPTIONS
-BOUNDED: list[str] = []
+BOUNDED = ["bounded repetitions e{n}, e{n,}, e{,n}, e{m,n}: the delegation to the unrolled sequence is proved for all n; that unroll() builds the named sequence is run concretely for parameters 0..5 (contracts/unroll_struct.py)"]
 
 
 def specs(tier):
     # C03 is stated over normal and silent rules; the atomicity modifiers are C04's
     rules = [r for r in g.rules() if r.modifier in (0, 2) and not r.trivia_name]
-    return [*g.core_terminals(), *g.structure(), *g.backtracking(), *rules, *g.entry()]
+    return [*g.core_terminals(), *g.structure(), *g.backtracking(), *ops.bounded_repeat_specs(), *rules, *g.entry()]
 
 from .groups import concretise_ops
 concretise = concretise_ops(PROPERTY)
+
+
+def extra_checks(tier, seed):
+    return [unroll_struct.check()]
